@@ -105,6 +105,8 @@ func baseForms() []aspec.Base {
 		{Form: "servers", Segs: []string{"v3"}, ViaVariables: true, Absolute: true, TrailingSlash: true},
 		{Form: "flag", Segs: []string{"f1"}},
 		{Form: "flag", Segs: []string{"f1", "f2"}, TrailingSlash: true},
+		{Form: "flag", Segs: []string{}, AlsoServers: true}, // --basepath / overrides servers[0] (no base path at all)
+		{Form: "flag", Segs: []string{"f3"}, AlsoServers: true},
 	}
 }
 
